@@ -1061,7 +1061,124 @@ class Inliner:
             out.append(st)
         return out
 
+    def restore_moved_across_modules(self):
+        """`from .utils import make_hashable as _hashable` / `from ._magic import GZIP_MAGIC` in module M, where the inventories know M._hashable as a
+        function (known_functions) or M.GZIP_MAGIC as a data name (known_globals) of M itself, and the definition now lives in a module that the
+        inventories do not credit with it: the definition was moved and imported back. The analysed tree of M gets a copy of the defining
+        statement (for a name bound inside a module-level try/except - optional-dependency probing - the whole statement), together with the
+        private module-level names it needs from its new home; the import stays, so other spellings keep resolving."""
+        import json as _json
+
+        with open(os.path.join(HERE, "known_globals.json")) as f:
+            kg = _json.load(f)["names"]
+        for m in self.prog.modules.values():
+            known_data = set(kg.get(m.modname, []))
+            inserts = []  # (index in m.tree.body, statements)
+            have = {t.id for st in m.tree.body if isinstance(st, ast.Assign) for t in st.targets if isinstance(t, ast.Name)} | \
+                {st.name for st in m.tree.body if isinstance(st, (ast.FunctionDef, ast.ClassDef))}
+            for idx, st in enumerate(list(m.tree.body)):
+                if not isinstance(st, ast.ImportFrom):
+                    continue
+                # resolve the source module
+                base = m.modname.split(".")
+                if not m.is_package:
+                    base = base[:-1]
+                if st.level:
+                    base = base[:len(base) - (st.level - 1)]
+                    srcname = ".".join(base + ([st.module] if st.module else []))
+                else:
+                    srcname = st.module or ""
+                x = self.prog.modules.get(srcname)
+                if x is None or x is m:
+                    continue
+                x_known_data = set(kg.get(x.modname, []))
+                new_stmts = []
+                for al in st.names:
+                    local = al.asname or al.name
+                    if local in have:
+                        continue
+                    is_func = f"{m.modname}.{local}" in self.inventory
+                    is_data = local in known_data
+                    if not (is_func or is_data):
+                        continue
+                    # the defining top-level statement in x
+                    src_st = None
+                    for s2 in x.tree.body:
+                        if isinstance(s2, (ast.FunctionDef, ast.ClassDef)) and s2.name == al.name:
+                            src_st = s2
+                        elif isinstance(s2, (ast.Assign, ast.AnnAssign)) and any(isinstance(t, ast.Name) and t.id == al.name for t in (s2.targets if isinstance(s2, ast.Assign) else [s2.target])):
+                            src_st = s2
+                        elif isinstance(s2, (ast.Try, ast.If)) and any(isinstance(n, ast.Name) and n.id == al.name and isinstance(n.ctx, ast.Store) for n in ast.walk(s2)):
+                            src_st = s2
+                        elif isinstance(s2, (ast.Try, ast.If)) and any(isinstance(n, ast.alias) and (n.asname or n.name).split(".")[0] == al.name for n in ast.walk(s2)):
+                            src_st = s2
+                    if src_st is None:
+                        continue
+                    if isinstance(src_st, (ast.FunctionDef, ast.ClassDef)) and f"{x.modname}.{al.name}" in self.inventory:
+                        continue  # it has always lived there
+                    if not isinstance(src_st, (ast.FunctionDef, ast.ClassDef)) and al.name in x_known_data:
+                        continue
+                    if any(src_st is q for q, _ in new_stmts):
+                        continue
+                    new_stmts.append((src_st, (al.name, local)))
+                if not new_stmts:
+                    continue
+                # dependencies: private top-level names of x that the copied statements read and m does not have
+                copied = []
+                todo = [q for q, _ in new_stmts]
+                seen_ids = set()
+                x_top = {}
+                for s2 in x.tree.body:
+                    if isinstance(s2, (ast.FunctionDef, ast.ClassDef)):
+                        x_top[s2.name] = s2
+                    elif isinstance(s2, (ast.Assign, ast.AnnAssign)):
+                        for t in (s2.targets if isinstance(s2, ast.Assign) else [s2.target]):
+                            if isinstance(t, ast.Name):
+                                x_top[t.id] = s2
+                    elif isinstance(s2, (ast.Import, ast.ImportFrom)):
+                        for a2 in s2.names:
+                            x_top.setdefault((a2.asname or a2.name).split(".")[0], s2)
+                m_names = have | {(a2.asname or a2.name).split(".")[0] for s2 in m.tree.body if isinstance(s2, (ast.Import, ast.ImportFrom)) for a2 in s2.names}
+                while todo:
+                    q = todo.pop()
+                    if id(q) in seen_ids:
+                        continue
+                    seen_ids.add(id(q))
+                    copied.append(q)
+                    for n in ast.walk(q):
+                        if isinstance(n, ast.Name) and isinstance(n.ctx, ast.Load) and n.id in x_top and n.id not in m_names:
+                            dep = x_top[n.id]
+                            if id(dep) not in seen_ids and not isinstance(dep, (ast.FunctionDef, ast.ClassDef)):
+                                todo.append(dep)
+                order = {id(s2): k for k, s2 in enumerate(x.tree.body)}
+                copied.sort(key=lambda q: order.get(id(q), 0))
+                rename = {a: b for _, (a, b) in new_stmts if a != b}
+                out = []
+                for q in copied:
+                    c = clone(q)
+                    if isinstance(c, (ast.FunctionDef, ast.ClassDef)) and c.name in rename:
+                        c.name = rename[c.name]
+                    elif rename:
+                        for n in ast.walk(c):
+                            if isinstance(n, ast.Name) and isinstance(n.ctx, ast.Store) and n.id in rename:
+                                n.id = rename[n.id]
+                    _set_module(c, m)
+                    for n in ast.walk(c):
+                        n._module = m
+                    out.append(c)
+                    have |= {n.id for n in ast.walk(c) if isinstance(n, ast.Name) and isinstance(n.ctx, ast.Store)} | ({c.name} if isinstance(c, (ast.FunctionDef, ast.ClassDef)) else set())
+                    self.inlined_calls.append(f"<moved across modules> {m.modname}.{getattr(c, 'name', '') or ast.unparse(c)[:30]} <- {x.modname}")
+                inserts.append((st, out))
+            if inserts:
+                for st, out in inserts:
+                    k = next(k for k, b in enumerate(m.tree.body) if b is st)
+                    m.tree.body[k + 1:k + 1] = out
+                relink(m)
+                m._symbols = None
+                self.prog._class_index = None
+
     def restore_moved_definitions(self):
+        self.restore_moved_across_modules()
         """`NAME = _Holder.func` (module level) or `name = staticmethod(_helper)` / `name = _helper` (class body) where the inventory
         knows NAME as a function/method of exactly this place and the right-hand side resolves to a function the inventory does
         NOT know: the definition was moved and the old name kept as an alias. The analysed tree gets the definition back under
